@@ -419,7 +419,12 @@ def expected_values(expected):
 
 # ------------------------------------------------------------------------------------------------ faults
 FAULT_KINDS = ["unknown-var", "non-numeric", "over-long", "negative", "inverted", "out-of-range", "unbalanced",
-               "unknown-function", "operand-type", "bad-operator", "percent", "dap4", "byte-mutation", "too-many-index"]
+               "unknown-function", "operand-type", "operand-not-literal", "bad-operator", "function+fault", "nested-path",
+               "percent", "dap4", "byte-mutation", "too-many-index"]
+
+# operands that are not Python literals: ast.literal_eval raises SyntaxError (not ValueError) on most of them
+NOT_LITERALS = ["(", ")", "1%202", "=5", ">5", "<1", "[", "]", "'", '"', "1+", "0x", "1e", "--", "1,2", "()", "[1,2", "{", "*",
+                "1..2", "09", "1_", "lambda:1", "a%20b", "'x", "\\", "@", "$", "?", ";", "1;2", ":", "...", "1if", "not", "-"]
 
 
 def inject_fault(rng, spec, q, kind):
@@ -463,6 +468,32 @@ def inject_fault(rng, spec, q, kind):
     if kind == "unknown-function":
         return rng.choice([with_item("foo(" + a + ")"), with_sel("foo(" + sc + ")>1"), with_item("(" + a + ")"), with_item("("),
                            with_item("mean()"), with_item("bar(1,2)"), with_sel("nofun(1)")])
+    if kind == "operand-not-literal":
+        # `s.i>(`, `s.i>1 2`, `s.i==5` (operand `=5`), `s.i<>5` (operand `>5`), also beside a good clause
+        lit = rng.choice(NOT_LITERALS)
+        op = rng.choice([">", "<", "=", "!=", ">=", "<="])
+        return with_sel(sc + op + lit) if rng.random() < 0.8 else with_sel(sc + op + "1") + "&" + sc + op + lit
+    if kind == "function+fault":
+        # a function call (projection or selection position) combined with a faulty clause or a faulty argument
+        call = rng.choice(["mean(%s,0)" % a, "mean(%s)" % a, "mean(g,0)", "bounds(0,1,0,1,0,1)", "foo(%s)" % a, "mean(mean(%s,0),0)" % a])
+        faulty_sel = sc + rng.choice(["><1", ">(", "==5", "<>5", ">1%202", ">abc", "=~1", ">", '>"x"', ">>1"])
+        faulty_item = rng.choice([a + "[x]", a + "[1:2:3:4]", "zz", a + "[99]", a + "[1", "st.zz", a + "[-1]"])
+        faulty_arg = rng.choice(["mean(%s[x],0)" % a, "mean(%s[99],0)" % a, "mean(zz,0)", "mean(%s,9)" % a, "mean(%s,x)" % a, "mean(%s,0" % a,
+                                 "mean(,)", "mean((,0)", "mean(%s,0)(1)" % a, "bounds(0,1,0,1)", "bounds(a,b,c,d,e,f)", "mean(%s,0)[0]" % a])
+        r = rng.random()
+        if r < 0.3:
+            return call + "&" + faulty_sel
+        if r < 0.5:
+            return ",".join(rng.sample([call, faulty_item], 2))
+        if r < 0.7:
+            return faulty_arg + rng.choice(["", "&" + faulty_sel, "," + a])
+        if r < 0.85:
+            return sn + "&" + call + "&" + faulty_sel
+        return call + "," + faulty_item + "&" + faulty_sel
+    if kind == "nested-path":
+        # paths through the nested structure that do not exist / slice a structure / go through a base variable
+        return with_item(rng.choice(["st.in.zz", "st.in[0]", "st[0].in", "st.in.e.x", "st.zz.e", "in.zz", "st.in.e[9][9][9]", "st.in[0].e",
+                                     "st.p.e", "in[0]", "st.in.", "st..e", "st.in.e[99]", "g.v.x", "s.i.j", "st.in.h[0:1:0]", "zz.in.e"]))
     if kind == "operand-type":
         return with_sel(sc + rng.choice(['>"x"', ">abc", ">1.5", "=" + a, ">", "=[1]", "<" + sn, '="1"', ">None", ">1e400"]))
     if kind == "bad-operator":
